@@ -29,6 +29,11 @@ def run(ctx):
             scen.append({"id": "plan%d.%d" % (i, rep), "moves": p["moves"], "intact": p["intact"], "victim": ["client", "server"][(i + rep) % 2],
                          "sizes": [CLASSES[c][0] for c in cls], "pads": [CLASSES[c][1] for c in cls], "bits": "sample", "nsample": 2 if quick else 6,
                          "chunk": ["whole", "random", "frame", "byte"][(i + rep) % (3 if quick else 4)], "seed": ctx.seed * 100000 + i * 10 + rep})
+            # half of the client victims fed in one piece get the tampered frames IN THE SAME SEGMENT as the server's handshake
+            # response: they are decoded inside Dial (which then is what reports the damage)
+            sc = scen[-1]
+            if sc["victim"] == "client" and sc["chunk"] == "whole" and ((i + rep) // 6) % 2 == 1:
+                sc["inline"] = True
     # every bit of a frame of each size class (thorough: min, mid, max completely; quick: all bits of a minimal frame + edges)
     k = 0
     for victim in ("client", "server"):
